@@ -35,6 +35,7 @@ package utils
 //@ ensures [P:C09] result1 == nil ==> forall i int :: 0 <= i && i < n ==> result0[i] == rd.sdata[old(rd.spos) + i]
 //@ ensures [P:C10] result1 == io.EOF ==> rd.sfault == nil
 //@ ensures [P:C10] old(rd.sfault) != nil && n > 0 ==> result1 == old(rd.sfault)
+//@ ensures [H] result1 == nil || result1 == io.EOF || int(result1) > 1000
 //@ ensures [H] old(rd.spos) <= rd.spos && rd.spos <= rd.sn && rd.spos <= old(rd.spos) + n
 //@ ensures [H] rd.sfault == nil ==> old(rd.sfault) == nil
 //@ ensures [H] result1 != nil && rd.sfault == nil ==> (result1 == io.EOF && rd.spos == rd.sn)
@@ -48,6 +49,7 @@ package utils
 //@ loop 0 invariant err == io.EOF ==> (rd.spos == rd.sn && rd.sfault == nil && old(rd.sfault) == nil)
 //@ loop 0 invariant err != nil && err != io.EOF ==> (rd.sfault == err && (old(rd.sfault) != nil ==> err == old(rd.sfault) && num == 0))
 //@ loop 0 invariant rd.sfault == nil ==> old(rd.sfault) == nil
+//@ loop 0 invariant err == nil || err == io.EOF || int(err) > 1000
 
 //@ func ReadByte
 //@ requires rd != nil && 0 <= rd.spos && rd.spos <= rd.sn
@@ -56,6 +58,7 @@ package utils
 //@ ensures [P:C09] result1 == nil ==> (rd.spos == old(rd.spos) + 1 && result0 == rd.sdata[old(rd.spos)])
 //@ ensures [P:C10] result1 == io.EOF ==> rd.sfault == nil
 //@ ensures [P:C10] old(rd.sfault) != nil ==> result1 == old(rd.sfault)
+//@ ensures [H] result1 == nil || result1 == io.EOF || int(result1) > 1000
 //@ ensures [H] old(rd.spos) <= rd.spos && rd.spos <= rd.sn && rd.spos <= old(rd.spos) + 1
 //@ ensures [H] rd.sfault == nil ==> old(rd.sfault) == nil
 //@ ensures [H] result1 != nil && rd.sfault == nil ==> (result1 == io.EOF && rd.spos == rd.sn)
@@ -67,6 +70,7 @@ package utils
 //@ ensures [P:C02] result1 == nil ==> (rd.spos == old(rd.spos) + 2 && result0 == ((uint16(rd.sdata[old(rd.spos)]) << 8) | uint16(rd.sdata[old(rd.spos) + 1])))
 //@ ensures [P:C10] result1 == io.EOF ==> rd.sfault == nil
 //@ ensures [P:C10] old(rd.sfault) != nil ==> result1 == old(rd.sfault)
+//@ ensures [H] result1 == nil || result1 == io.EOF || int(result1) > 1000
 //@ ensures [H] old(rd.spos) <= rd.spos && rd.spos <= rd.sn && rd.spos <= old(rd.spos) + 2
 //@ ensures [H] rd.sfault == nil ==> old(rd.sfault) == nil
 //@ ensures [H] result1 != nil && rd.sfault == nil ==> (result1 == io.EOF && rd.spos == rd.sn)
@@ -78,6 +82,7 @@ package utils
 //@ ensures [P:C02] result1 == nil ==> (rd.spos == old(rd.spos) + 4 && result0 == ((uint32(rd.sdata[old(rd.spos)]) << 24) | (uint32(rd.sdata[old(rd.spos) + 1]) << 16) | (uint32(rd.sdata[old(rd.spos) + 2]) << 8) | uint32(rd.sdata[old(rd.spos) + 3])))
 //@ ensures [P:C10] result1 == io.EOF ==> rd.sfault == nil
 //@ ensures [P:C10] old(rd.sfault) != nil ==> result1 == old(rd.sfault)
+//@ ensures [H] result1 == nil || result1 == io.EOF || int(result1) > 1000
 //@ ensures [H] old(rd.spos) <= rd.spos && rd.spos <= rd.sn && rd.spos <= old(rd.spos) + 4
 //@ ensures [H] rd.sfault == nil ==> old(rd.sfault) == nil
 //@ ensures [H] result1 != nil && rd.sfault == nil ==> (result1 == io.EOF && rd.spos == rd.sn)
